@@ -4,7 +4,7 @@
    Model/Coord.v; proofs in Proofs/CoordScale.v.  (It is also what makes following sessions with fractional rewards - binary
    fractions - at a scale at which they are whole numbers exact.) *)
 From Coq Require Import ZArith NArith List Bool.
-From NSG Require Import Base.Prelude Model.Defender Model.Coord Model.CoordExec Proofs.CoordScale.
+From NSG Require Import Base.Prelude Model.Defender Model.Coord Model.CoordExec Proofs.CoordScale Proofs.CoordTwinsQuiescent.
 Import ListNotations.
 
 Theorem C05_rewards_scale_step :
@@ -40,6 +40,13 @@ Proof.
   - intros c. exact (alookup_mv (kconn k) c (conns s)).
 Qed.
 
+(* ... and the scaled state is idle exactly when the original is *)
+Theorem C05_rewards_scale_quiescent :
+  forall (V W G : Type) (wstep : W -> V -> G -> W * V) (winit : W -> role -> W * V)
+         (goal : role -> V -> bool) (detect : list G -> G -> bool) (cfg : config) (k : Z) (s : @state V W G),
+    quiescent wstep winit goal detect (kcfg cfg k) (ks k s) = quiescent wstep winit goal detect cfg s.
+Proof. intros V W G wstep winit goal detect cfg k s. exact (quiescent_ks wstep winit goal detect cfg k s). Qed.
+
 (* non-vacuity: an attacker with a step limit of 1 plays once and times out - rewards (-1, +100, -10) give a final reward of -11;
    the same labels with rewards (-1/16, ...) written as sixteenths, i.e. the scaled configuration k = 16, give -176 = 16 * (-11) *)
 Example C05_scale_nonvacuous :
@@ -62,3 +69,4 @@ Proof. vm_compute. repeat split; reflexivity. Qed.
 Print Assumptions C05_rewards_scale_step.
 Print Assumptions C05_rewards_scale.
 Print Assumptions C05_rewards_scale_observables.
+Print Assumptions C05_rewards_scale_quiescent.
